@@ -5,6 +5,8 @@
 (*   np.random.randint results, 1-based positions), elite = [parent, idx],         *)
 (*   sel = [[parent, idx, faithful]...] (parent identified by weight fingerprint), *)
 (*   old_untouched, shared (storage shared between any two agents old/new)         *)
+(*   fit is in integer units of 1/fscale (scores are dyadic multiples of 1/fscale; *)
+(*   the comparison of means is scale invariant); optional: via, wiring            *)
 EXTENDS EvoSelect, Json, IOUtils, TLCExt
 CONSTANT Diag
 Traces == JsonDeserialize(IOEnv.TRACE_FILE)
@@ -47,6 +49,9 @@ TSelect ==
   /\ Check("the elite is a faithful copy", Ev.elite.faithful)
   /\ Check("the old population is left untouched", Ev.old_untouched)
   /\ Check("no storage shared between old and new agents", Len(Ev.shared) = 0)
+  \* round 4: the training loops' helper (utils.tournament_selection_and_mutation) hands the population to select as it is and
+  \* returns (through mutation) select's generation; with save_elite the saved agent is the elite (field absent in older traces)
+  /\ Check("the training-loop helper passes population, generation and elite through unchanged", "wiring" \in DOMAIN Ev => Ev.wiring)
   /\ pop' = [j \in 1..Len(Sel) |-> [idx |-> Sel[j].idx, fit |-> P[Sel[j].parent].fit]]
   /\ prev' = P /\ elite' = [parent |-> EliteParent, idx |-> Ev.elite.idx] /\ lastsel' = Sel
   /\ gen' = gen + 1 /\ act' = "select"
